@@ -350,7 +350,7 @@ Qed.
 
 Lemma rq_read_inflight_ok now n s q : res_ok q (rq_read_inflight now n s q).
 Proof.
-  unfold rq_read_inflight.
+  unfold rq_read_inflight. destruct n as [|n']; [apply done_ok; [reflexivity|constructor]|].
   destruct (elems_of _) as [|e l] eqn:El; [apply done_ok; [reflexivity|constructor]|].
   match goal with |- context [rq_rif_loop ?a ?b ?c ?d ?e0 ?f ?g ?h ?i] =>
     pose proof (rq_rif_loop_cmds a b c d e0 f g h i (Forall_nil _)) as H;
@@ -1015,7 +1015,7 @@ Proof.
 Qed.
 Lemma rq_read_inflight_store now n s q : res_store s (rq_read_inflight now n s q).
 Proof.
-  unfold rq_read_inflight. destruct (elems_of _); [apply done_store|].
+  unfold rq_read_inflight. destruct n as [|n']; [apply done_store|]. destruct (elems_of _); [apply done_store|].
   destruct (rq_rif_loop _ _ _ _ _ _ _ _ _) as [[[[[cur cache] rs] cmds] dr] p]. destruct p; apply done_store.
 Qed.
 
